@@ -323,6 +323,8 @@ thread_local! {
     static QUIET: RefCell<bool> = const { RefCell::new(false) };
 }
 
+pub static HARNESS_PANICS: std::sync::atomic::AtomicU64 = std::sync::atomic::AtomicU64::new(0);
+
 pub fn install_panic_hook() {
     let default = std::panic::take_hook();
     std::panic::set_hook(Box::new(move |info| {
@@ -338,10 +340,19 @@ pub fn install_panic_hook() {
             .map(|l| format!("{}:{}", l.file(), l.line()))
             .unwrap_or_else(|| "?".to_string());
         let quiet = QUIET.with(|q| *q.borrow());
-        LAST_PANIC.with(|p| *p.borrow_mut() = Some((msg, loc)));
-        if !quiet {
+        if quiet && std::env::var("VERIF_LOUD").is_ok() {
+            // debugging aid: show the backtrace of a guarded (attributed) panic
             default(info);
         }
+        if !quiet {
+            // a panic outside `guarded` is a defect of the harness itself: never a verdict
+            HARNESS_PANICS.fetch_add(1, std::sync::atomic::Ordering::SeqCst);
+            eprintln!("vharness: INTERNAL panic (harness code): {msg} at {loc}");
+            if std::env::var("RUST_BACKTRACE").is_ok() {
+                default(info);
+            }
+        }
+        LAST_PANIC.with(|p| *p.borrow_mut() = Some((msg, loc)));
     }));
 }
 
